@@ -530,6 +530,8 @@ var specialValues = []func() any{
 	func() any { return nanValue },
 }
 
+var nodeType = reflect.TypeOf(Node{})
+
 var nanValue = func() float64 { var z float64; return z / z }()
 
 // mutateValue rewrites parts of an addressable value in place.
@@ -576,6 +578,12 @@ func mutateValue(v reflect.Value, r *gen.R, depth int) {
 			}
 		}
 	case reflect.Struct:
+		if v.Type() == nodeType && v.CanAddr() && r.P(60) {
+			// a pointer cycle: both codecs must report it instead of recursing for ever
+			n := v.Addr().Interface().(*Node)
+			n.Next = n
+			return
+		}
 		for i := 0; i < v.NumField(); i++ {
 			if v.Type().Field(i).IsExported() {
 				mutateValue(v.Field(i), r, depth+1)
